@@ -31,6 +31,25 @@ partial def parseProcs : Nat → List String → Option (List Proc × List Strin
     pure (p :: ps, r)
 end
 
+mutual
+/-- parse one margin: N | S | P <str> | C <bool> <margin> -/
+partial def parseMargin : List String → Option (Margin × List String)
+  | "N" :: rest => some (Margin.numbered, rest)
+  | "S" :: rest => some (Margin.scrollbar, rest)
+  | "P" :: t :: rest => do pure (Margin.prompt (← decStr t), rest)
+  | "C" :: b :: rest => do
+    let b ← decBool b
+    let (m, r) ← parseMargin rest
+    pure (Margin.cond b m, r)
+  | _ => none
+partial def parseMargins : Nat → List String → Option (List Margin × List String)
+  | 0, rest => some ([], rest)
+  | n + 1, toks => do
+    let (m, r) ← parseMargin toks
+    let (ms, r) ← parseMargins n r
+    pure (m :: ms, r)
+end
+
 def encCell (t : Text) : String := ".".intercalate (t.map fun c => toString c.toNat)
 
 def encRow (cells : List ((Int × Int) × Text)) (y xoff : Int) (width : Nat) : String :=
@@ -46,7 +65,7 @@ def showMaps (procs : List Proc) (text : Text) (cy : Nat) : String :=
   let d2s := (List.range (tr.frags.length + 2)).map fun (j : Nat) => toString (tr.d2s (j : Int))
   s!"pm {s2d.length} " ++ " ".intercalate s2d ++ s!" dm {d2s.length} " ++ " ".intercalate d2s
 
-def showRendered (r : Rendered) (xpos ypos : Int) (tw height mw : Nat) (maps : String) : String :=
+def showRendered (r : Rendered) (xpos ypos : Int) (tw height lw rw mw : Nat) (maps : String) : String :=
   let st := r.st
   let (cyS, cxS) := cursorScreen st r.cy r.cx
   let vl := st.vl.reverse
@@ -54,7 +73,7 @@ def showRendered (r : Rendered) (xpos ypos : Int) (tw height mw : Nat) (maps : S
   let vlS := vl.foldl (fun acc (y, row, col) => acc ++ s!" {y} {row} {col}") s!"vl {vl.length}"
   let rcS := rc.foldl (fun acc ((row, col), (y, x)) => acc ++ s!" {row} {col} {y} {x}") s!"rc {rc.length}"
   let rows := (List.range height).map fun (y : Nat) => encRow st.cells (ypos + (y : Int)) r.xoff r.width.toNat
-  let (mx0, mx1) := mouseXRange Gen.C11.mouseRegionFixed xpos tw mw
+  let (mx0, mx1) := mouseXRange Gen.C11.mouseRegionFixed xpos tw lw rw
   let mr := if mx0 < mx1 then s!"{mx0} {mx1}" else "E"
   -- the cells of the numbered margin, row by row
   let dl := displayedLines st
@@ -73,7 +92,8 @@ structure Last where
   ypos : Int
   tw : Nat
   height : Nat
-  mw : Nat
+  lw : Nat
+  rw : Nat
 
 structure DS where
   s : Scroll
@@ -88,7 +108,7 @@ def stepLine (d : DS) (toks : List String) : DS × String :=
   | ["click", y, x] =>
     match decInt y, decInt x, d.last with
     | some y, some x, some l =>
-      let (mx0, mx1) := mouseXRange Gen.C11.mouseRegionFixed l.xpos l.tw l.mw
+      let (mx0, mx1) := mouseXRange Gen.C11.mouseRegionFixed l.xpos l.tw l.lw l.rw
       -- `set_mouse_handler_for_range`: the handler is installed for these cells only
       if l.ypos ≤ y ∧ y < l.ypos + l.height ∧ mx0 ≤ x ∧ x < mx1 then
         let (row, col) := windowClick l.r.st l.ypos y x
@@ -96,7 +116,7 @@ def stepLine (d : DS) (toks : List String) : DS × String :=
       else (d, "none")
     | _, _, _ => (d, "bad-op")
   | "render" :: w :: h :: wrap :: xpos :: ypos :: top :: bottom :: left :: right :: beyond :: margin ::
-      hasP :: pA :: pB :: pC :: cbV :: cbH :: np :: rest =>
+      hasP :: pA :: pB :: pC :: cbV :: cbH :: nl :: rest =>
     let r : Option (DS × String) := do
       let w ← decNat w
       let h ← decNat h
@@ -115,21 +135,30 @@ def stepLine (d : DS) (toks : List String) : DS × String :=
       let pC ← decStr pC
       let cbV ← decOptInt cbV
       let cbH ← decOptInt cbH
-      let np ← decNat np
-      let (procs, rest) ← parseProcs np rest
+      let (lefts, rest) ← parseMargins (← decNat nl) rest
+      let (rights, rest) ← match rest with
+        | nr :: rest => do parseMargins (← decNat nr) rest
+        | [] => none
+      let (procs, rest) ← match rest with
+        | np :: rest => do parseProcs (← decNat np) rest
+        | [] => none
       match rest with
       | [text, cur] =>
         let text ← decStr text
         let cur ← decNat cur
         let cfg : Cfg := { xpos := xpos, ypos := ypos, top := top, bottom := bottom, left := left,
                            right := right, beyond := beyond, margin := margin,
-                           pfx := if hasP then some (pA, pB, pC) else none, procs := procs }
+                           pfx := if hasP then some (pA, pB, pC) else none, procs := procs,
+                           lefts := lefts, rights := rights }
         match renderCb genW cfg w h wrap text cur cbV cbH d.s with
         | some r =>
-          let mw : Nat := (r.xoff - xpos).toNat
+          let lc := (contentLines procs text).length
+          let lw := cfg.leftWidth genW lc
+          let rw := cfg.rightWidth genW lc
+          let mw : Nat := if margin then numberedMarginWidth lc else 0     -- the numbered margin's columns
           pure ({ s := r.scroll, last := some { r := r, procs := procs, text := text, xpos := xpos, ypos := ypos,
-                                                 tw := w, height := h, mw := mw } },
-                showRendered r xpos ypos w h mw (showMaps procs text r.cy))
+                                                 tw := w, height := h, lw := lw, rw := rw } },
+                showRendered r xpos ypos w h lw rw mw (showMaps procs text r.cy))
         | none => pure ({ d with last := none }, "err:KeyError")
       | _ => none
     r.getD (d, "bad-op")
